@@ -21,7 +21,7 @@ use std::path::PathBuf;
 pub static DEF: PropDef = PropDef {
     id: "C14",
     level: "exploration",
-    total: |t| t.pick(64, 3200),
+    total: |t| t.pick(64, 4800),
     run,
     rule: "decoder inputs: uniformly random bytes of length 0..120, every truncation of valid packets, valid packets with one field pushed to an extreme (IHL, total_length 0..19, TTL 0, data offset, DHCP type 0 and 8..255, rdlength, non-UTF-8 / unterminated names) or random bit flips; each of Ipv4Header/UdpHeader/TcpHeader/ArpPacket/DnsMessage/DhcpMessage::from_bytes plus DnsQuestion::query_name and MessageType::try_from must return, not unwind. NDL texts: the repository's .ndl/.txt files mutated by token insertion/deletion/duplication, truncation at every kind of position, indentation shifts (tabs, 4 spaces, mixed), keyword swaps incl. IPtype, quotes/brackets/backslashes, CRLF and non-ASCII; core_parser must return Ok or Err. Full-stack part: malformed raw frames injected with PciSession::send_pci into running hosts, a router and DHCP/DNS servers must reach no recorder application and leave a concurrent legitimate UDP exchange and TCP connection unaffected (run ends with the scripted status). Non-trivial = distinct (decoder or parser, outcome variant, mutation kind) tuple.",
     assumptions: &["a panic caught by catch_unwind in the harness is what the simulator's panic hook would turn into process exit"],
